@@ -1,9 +1,10 @@
-SPECIFICATION Spec
+SPECIFICATION Spec14
 CONSTANTS
   Tier = "quick"
   MaxN = 2
   UaVals = {0, 1, 3}
   PvVals = {0, 1, 3}
   ChpVals = {0, 2}
-INVARIANTS Check CheckK CheckPrio CheckRer CheckStrip
+  DeltaVals = {0, 1, 2, 3}
+INVARIANTS CheckMono
 CHECK_DEADLOCK FALSE
